@@ -93,7 +93,7 @@ TABLE['C09'] = {
 }
 
 TABLE['C03'] = {
-    'modules': ['contracts.graph', 'contracts.make', 'contracts.ninja', 'contracts.crossbackend', 'contracts.emitters'],
+    'modules': ['contracts.graph', 'contracts.make', 'contracts.ninja', 'contracts.crossbackend', 'contracts.emitters', 'contracts.depfile'],
     'level': 'proof',
     'assumptions': [
         'Makefile._target_str / NinjaFile._output_str are abstracted as an uninterpreted function from the thing to its escaped text (their injectivity up to the escape is C04)',
@@ -140,7 +140,7 @@ TABLE['C17'] = {
 }
 
 TABLE['C20'] = {
-    'modules': ['contracts.windows'],
+    'modules': ['contracts.windows', 'contracts.graph'],
     'level': 'proof',
     'assumptions': [
         'specs/crt.py (MS C runtime argument parsing, post-2008 rules incl. "" inside quotes) is written from the documentation; no Windows runtime exists in the sandbox: NOT tool-validated',
@@ -192,7 +192,7 @@ TABLE['C19'] = {
 }
 
 TABLE['C08'] = {
-    'modules': ['contracts.regen', 'contracts.scripts', 'contracts.regencheck', 'contracts.env'],
+    'modules': ['contracts.regen', 'contracts.scripts', 'contracts.regencheck', 'contracts.env', 'contracts.installglue'],
     'level': 'other',
     'explanation': 'history property (edits interleaved with regenerations): outside one-call contracts. What is decided: (proof) the skip decision of find_check_cache, for any number of regeneration inputs/outputs and arbitrary cached find results, over an abstract file system: skipped only if the cache is not newer than the build file, no input is newer than any output and every cached result (found and extra) equals the fresh search; fresh results and searched directories are recorded for every cached filter; (proof) BasePath.to_json encodes the directory flag as a trailing separator (the only way from_json can recover it); (bounded, real code) to_json/from_json of PathGlob, NameGlob, FileFilter, FindCache (kinds preserved), RegenerateFiles and the cache-file version gate are identities / refusals as required; find() on real trees equals the reference semantics; push_path records scripts in start order; (bounded, real driver + GNU make) on a generated project with two find_files calls, a submodule and an options file, 12 single edits and 10 edit pairs (all ordered pairs in the thorough tier) each followed by the generated regeneration rule leave Makefile, .bfg_find_deps (as a set), .bfg_find_cache and compile_commands.json identical to a fresh configure, and a second make regenerates nothing; (bounded, real GNU make) the depfile written by find.write_depfile makes the output depend on exactly the searched directories, for directory names with Make-special characters, and survives deletion of a directory',
     'assumptions': ['json.dumps/loads round-trips lists, dicts, strings, booleans and None'],
@@ -266,7 +266,7 @@ TABLE['C18'] = {
 
 
 TABLE['C06'] = {
-    'modules': ['contracts.crossbackend', 'contracts.emitters'],
+    'modules': ['contracts.crossbackend', 'contracts.emitters', 'contracts.installglue'],
     'level': 'other',
     'explanation': 'a relational property across three hand-written emitters per builtin over duck-typed rule objects. Proved (deductive, abstract step object, dependency lists of length 0..2): the Make and the Ninja emitter of custom steps (command / build_step) each hand their backend exactly one description of the step -- outputs, every consumed file (files and extra_deps), the command line with its environment, always-outdated iff declared -- so the two build files agree on such steps. For all other builtins no product-program contract was built (the emitter kernels under contract are claimed under C01/C02/C03). The check is a bounded runtime contract on the real pipeline: seven generated projects (libraries with forwarded options, tests with an environment, install, pkg-config, alias; build_step / command / copy_file with blanks, `$` and quotes in names and options) are configured for Make and for Ninja by the tree under test. GNU make reports the Make side itself (make -n -B for command lines, make -pn for the dependency relation); build.ninja is read with the evaluator specs/ninja_eval.py; compile_commands.json of each backend is matched against the compile steps of that backend. Compared: buildable file targets, dependency relation, argument lists (program, arguments, environment assignments) of every build step and of test / install / uninstall / dist.',
     'assumptions': ['emitter contracts (contracts/emitters.py): the step object is abstract (arbitrary field values), its dependency lists have the lengths 0..2 (list concatenation is uniform in the length; not an induction), callees (multitarget_rule, command_build, Makefile.rule / NinjaFile.build / default / rule / define, the tool objects, flags_vars, _install_files, _build_commands ...) are recorded opaque calls with abstract results; Variable objects for plain-word names are constructed without the constructor\'s re.sub (it only rewrites non-word characters)',
